@@ -20,30 +20,42 @@ fn init() {
 
 type Job = Box<dyn FnOnce() -> Verdict + Send + 'static>;
 
-/// one persistent big-stack worker: deep chains must not overflow libFuzzer's main-thread stack
+/// one persistent big-stack worker: deep chains must not overflow libFuzzer's main-thread stack.  As in the
+/// proptest-driven runner, the worker is replaced by a fresh thread after anything unwound through rrss on it (the fuel
+/// hooks are the harness's own; what such an unwind leaves behind is not held against rrss).
 fn on_worker(job: Job) -> Verdict {
     use std::sync::mpsc::{channel, Receiver, Sender};
-    use std::sync::{Mutex, OnceLock};
-    static W: OnceLock<Mutex<(Sender<Job>, Receiver<Verdict>)>> = OnceLock::new();
-    let w = W.get_or_init(|| {
+    use std::sync::Mutex;
+    type Link = (Sender<Job>, Receiver<(Verdict, bool)>);
+    static W: Mutex<Option<Link>> = Mutex::new(None);
+    let mut g = W.lock().unwrap();
+    if g.is_none() {
         let (jtx, jrx) = channel::<Job>();
-        let (vtx, vrx) = channel::<Verdict>();
+        let (vtx, vrx) = channel::<(Verdict, bool)>();
         std::thread::Builder::new()
             .stack_size(1 << 30)
             .spawn(move || {
                 for job in jrx {
+                    let before = crate::run::unwinds();
                     let v = std::panic::catch_unwind(std::panic::AssertUnwindSafe(job)).unwrap_or_else(|_| Verdict::Fail("the check itself panicked".into()));
-                    if vtx.send(v).is_err() {
+                    let retire = crate::run::unwinds() != before;
+                    if vtx.send((v, retire)).is_err() || retire {
                         break;
                     }
                 }
             })
             .expect("spawn worker");
-        Mutex::new((jtx, vrx))
-    });
-    let g = w.lock().unwrap();
-    g.0.send(job).expect("worker gone");
-    g.1.recv().expect("worker gone")
+        *g = Some((jtx, vrx));
+    }
+    let (v, retire) = {
+        let link = g.as_ref().unwrap();
+        link.0.send(job).expect("worker gone");
+        link.1.recv().expect("worker gone")
+    };
+    if retire {
+        *g = None;
+    }
+    v
 }
 
 /// true = keep in the corpus, false = reject (discarded case)
@@ -56,6 +68,14 @@ pub fn one<P: Prop + 'static>(p: P, case: P::Case, origin: &str) -> bool {
         Verdict::Pass => true,
         Verdict::Discard(_) => false,
         Verdict::Fail(msg) => {
+            // does the failure need what the worker thread ran before?  (a fresh thread knows nothing)
+            let (p3, c3) = (p.clone(), case.clone());
+            let alone = std::thread::Builder::new().stack_size(1 << 30).spawn(move || p3.check(&c3).verdict).expect("spawn").join().ok();
+            let msg = if matches!(alone, Some(Verdict::Fail(_))) {
+                msg
+            } else {
+                format!("{}\n--- note: this case passes when it is the first thing run on a thread; it failed after the cases the fuzzing process had run before it on its worker thread, so this file alone does not reproduce it (the proptest-driven tiers report such failures with their history)", msg)
+            };
             let dir = Path::new(VERIF_ROOT).join("replays").join(p.id());
             let _ = std::fs::create_dir_all(&dir);
             let body = json!({
